@@ -186,10 +186,25 @@ def register(cat):
         n = len(sh)
         if n < 2:
             return None
-        kind = c.g.choice(["length", "columns", "rows"])
+        kind = c.g.choice(["length", "columns", "rows", "rows_swapped", "rows_swapped"])
         rk = 2
         mats = [np.asfortranarray(rand_array(c.g, (s, rk))) for s in sh]
         mode = c.g.randrange(n)
+        if kind == "rows_swapped":
+            # right total number of rows, wrong individual sizes: two factors (not the skipped mode) exchanged
+            pairs = [(a, b) for a in range(n) for b in range(a + 1, n) if a != mode and b != mode and sh[a] != sh[b]]
+            if not pairs:
+                pairs = [(a, b) for a in range(n) for b in range(a + 1, n) if sh[a] != sh[b]]
+                if not pairs:
+                    return None
+                a, b = c.g.choice(pairs)
+                mode = next(m for m in range(n) if m not in (a, b)) if n > 2 else None
+                if mode is None:
+                    return None
+            else:
+                a, b = c.g.choice(pairs)
+            mats[a], mats[b] = mats[b], mats[a]
+            return {"operands": [r] + [c.fresh(m) for m in mats], "n": mode}
         if kind == "length":
             mats = mats[:-1] if c.g.random() < 0.5 else mats + [mats[0]]
         elif kind == "columns":
